@@ -586,3 +586,35 @@ impl V for WithSkip {
     fn dup(&self) -> Self { self.clone() }
     fn name() -> String { "WithSkip".into() }
 }
+
+// Pairs of fixed-width integers whose near miss moves half an integer across
+// the field boundary: (lo | hi << H, b) vs (lo, hi | b << H).  The two differ
+// as values, and feed different streams to the hasher only as long as every
+// integer is written at its full width.
+macro_rules! int_pair {
+    ($name:ident, $t:ty, $h:expr) => {
+        #[derive(Debug, Clone, PartialEq, Eq, Encode, Decode, StableHash)]
+        pub struct $name(pub $t, pub $t);
+        impl V for $name {
+            fn gen_v(r: &mut Rng, _d: u32) -> Self {
+                let lo = 1 + r.below(100) as $t;
+                let hi = r.below(3) as $t;
+                let b = r.below(100) as $t;
+                $name(lo | (hi << $h), b)
+            }
+            fn same(&self, o: &Self) -> bool { self == o }
+            fn near(&self, _r: &mut Rng) -> Self {
+                let mask: $t = (1 << $h) - 1;
+                let (lo, hi) = (self.0 & mask, self.0 >> $h);
+                if hi != 0 && self.1 <= mask { $name(lo, hi | (self.1 << $h)) } else { $name(self.0 + 1, self.1) }
+            }
+            fn dup(&self) -> Self { self.clone() }
+            fn name() -> String { stringify!($name).into() }
+        }
+    };
+}
+int_pair!(PairU16, u16, 8);
+int_pair!(PairU32, u32, 16);
+int_pair!(PairU64, u64, 32);
+int_pair!(PairU128, u128, 64);
+int_pair!(PairI128, i128, 64);
